@@ -210,6 +210,7 @@ def run_requests(ebp, reqs, tracefile, scratch, log):
             elif kind in ("run_phase", "run_phase_file"):
                 handlers = {"doins": fake_helper, "request_bashrcs": fake_bashrcs}
                 env = {"FOO": "bar baz", "T": "/tmp"}
+                env.update(r.get("env_extra", {}))
                 res = ebp.run_phase("install", env, tmpdir=scratch if kind == "run_phase_file" else None,
                                     logging=os.path.join(scratch, "log") if kind == "run_phase_file" else None,
                                     additional_commands=handlers)
@@ -652,6 +653,12 @@ def real_sessions(scratch, n_variants):
         ("metadata-path", [dict(kind="set_metadata_path", need=1, have=1), dict(kind="is_responsive"), dict(kind="shutdown")]),
         ("bad-eclass-then-shutdown", [dict(kind="preload_async", file=bad), dict(kind="shutdown")]),
         ("bad-eclass-sync", [dict(kind="preload_sync", file=bad), dict(kind="is_responsive"), dict(kind="shutdown")]),
+        # a variable name bash refuses to export: the real daemon answers env_receiving_failed and its
+        # main loop reports the abandoned request too; the next request must still get its own reply
+        ("env-receiving-fails", [dict(kind="run_phase", need=1, have=1, env_extra={"BAD-NAME": "x"}),
+                                 dict(kind="is_responsive"), dict(kind="shutdown")]),
+        ("env-file-receiving-fails", [dict(kind="run_phase_file", need=0, have=0, env_extra={"BAD-NAME": "x"}),
+                                      dict(kind="is_responsive"), dict(kind="shutdown")]),
     ][:n_variants]
     for idx, (name, reqs) in enumerate(plans):
         tracefile = os.path.join(scratch, f"real{idx}.ndjson")
@@ -751,7 +758,7 @@ def run(ck):
     # 3. code -> spec with the real daemon
     base = len(behs)
     if not ck.replay_case:
-        for k, (name, recs) in enumerate(real_sessions(scratch, ck.pick(9, 11))):
+        for k, (name, recs) in enumerate(real_sessions(scratch, ck.pick(13, 13))):
             evs = to_events(base + k, recs, "real")
             events += evs
             sessions[base + k] = name
